@@ -164,33 +164,150 @@ pub fn translatable(code: u8) -> bool {
     (0x01..=0x7F).contains(&code) || code == 0x83 || code == 0x84
 }
 
-/// Lookup tables built once from SPEC: [prefix][code] -> key
+static TABLES: std::sync::OnceLock<Tables> = std::sync::OnceLock::new();
+/// The reference tables of this process (embedded transcription + live README).
+pub fn tables() -> &'static Tables {
+    TABLES.get_or_init(Tables::build)
+}
+
+/// Where the crate under test lives (set by build.rs from the path dependency).
+pub const REPO_DIR: &str = env!("PCSIM_REPO_DIR");
+
+/// Lookup tables: [prefix][code] -> key. Built from the embedded transcription
+/// (SPEC) overlaid with the README conversion table of the tree under test as it
+/// is now - the property names that table as the reference, so a key that is
+/// added to the crate together with its README row is part of the standard the
+/// decoders are held to. A README row is taken over only if it is consistent
+/// with the 8042 translation; the two known README slips never are.
 pub struct Tables {
     pub set2: [[Option<KeyCode>; 256]; 3],
     pub set1: [[Option<KeyCode>; 256]; 3],
-    /// key index -> (prefix, code)
-    pub enc2: [Option<Pc>; NKEYS],
-    pub enc1: [Option<Pc>; NKEYS],
+    /// (key, Set 1 sequence, Set 2 sequence) as used by the typist
+    pub rows: Vec<(KeyCode, Option<Pc>, Option<Pc>)>,
+    /// informational: README errata and README rows that differ from the transcription
+    pub notes: Vec<String>,
 }
 
 impl Tables {
-    pub fn build() -> Tables {
-        let mut t = Tables {
-            set2: [[None; 256]; 3],
-            set1: [[None; 256]; 3],
-            enc2: [None; NKEYS],
-            enc1: [None; NKEYS],
-        };
+    /// embedded transcription only
+    pub fn embedded() -> Tables {
+        let mut t = Tables { set2: [[None; 256]; 3], set1: [[None; 256]; 3], rows: Vec::new(), notes: Vec::new() };
         for (k, s1, s2) in SPEC.iter() {
+            t.rows.push((*k, *s1, *s2));
+        }
+        t.index();
+        t
+    }
+    fn index(&mut self) {
+        self.set2 = [[None; 256]; 3];
+        self.set1 = [[None; 256]; 3];
+        for (k, s1, s2) in self.rows.iter() {
             if let Some((p, c)) = s1 {
-                t.set1[*p as usize][*c as usize] = Some(*k);
-                t.enc1[kidx(*k)] = Some((*p, *c));
+                self.set1[*p as usize][*c as usize] = Some(*k);
             }
             if let Some((p, c)) = s2 {
-                t.set2[*p as usize][*c as usize] = Some(*k);
-                t.enc2[kidx(*k)] = Some((*p, *c));
+                self.set2[*p as usize][*c as usize] = Some(*k);
             }
         }
+    }
+    /// embedded transcription overlaid with the live README
+    pub fn build() -> Tables {
+        let mut t = Tables::embedded();
+        let path = format!("{}/README.md", REPO_DIR);
+        let rows = match parse_readme(&path) {
+            Ok(r) => r,
+            Err(e) => {
+                t.notes.push(format!("README not read ({}); using the embedded transcription", e));
+                return t;
+            }
+        };
+        if rows.len() < 100 {
+            t.notes.push(format!("README conversion table not recognised ({} rows parsed); using the embedded transcription", rows.len()));
+            return t;
+        }
+        // keys the harness does not know by name are resolved through what the real
+        // decoders answer (name -> enum value only; not what code they sit on)
+        let mut discovered: Vec<(String, KeyCode)> = Vec::new();
+        let mut resolve = |name: &str| -> Option<KeyCode> {
+            if let Some(k) = key_by_name(name) {
+                return Some(k);
+            }
+            if discovered.is_empty() {
+                use pc_keyboard::{ScancodeSet, ScancodeSet1, ScancodeSet2};
+                for pfx in [None, Some(0xE0u8), Some(0xE1u8)] {
+                    for code in 0u16..256 {
+                        let mut d2 = ScancodeSet2::new();
+                        let mut d1 = ScancodeSet1::new();
+                        let mut last2 = None;
+                        let mut last1 = None;
+                        if let Some(p) = pfx {
+                            let _ = d2.advance_state(p);
+                            let _ = d1.advance_state(p);
+                        }
+                        if let Ok(Some(e)) = d2.advance_state(code as u8) {
+                            last2 = Some(e.code);
+                        }
+                        if let Ok(Some(e)) = d1.advance_state(code as u8) {
+                            last1 = Some(e.code);
+                        }
+                        for k in [last2, last1].into_iter().flatten() {
+                            let n = format!("{:?}", k);
+                            if !discovered.iter().any(|(m, _)| *m == n) {
+                                discovered.push((n, k));
+                            }
+                        }
+                    }
+                }
+            }
+            discovered.iter().find(|(n, _)| n == name).map(|(_, k)| *k)
+        };
+        let mut seen_names: Vec<String> = Vec::new();
+        for (name, a, b) in rows {
+            seen_names.push(name.clone());
+            let k = match resolve(&name) {
+                Some(k) => k,
+                None => {
+                    if a.is_some() || b.is_some() {
+                        t.notes.push(format!("README row {} names a key no decoder ever reports; row ignored", name));
+                    }
+                    continue;
+                }
+            };
+            let cur = t.rows.iter().position(|r| r.0 == k);
+            let (e1, e2) = cur.map(|i| (t.rows[i].1, t.rows[i].2)).unwrap_or((None, None));
+            if (e1, e2) == (a, b) {
+                continue;
+            }
+            // consistent with the controller's translation?
+            let consistent = match (a, b) {
+                (Some((p1, c1)), Some((p2, c2))) => p1 == p2 && xlate(c2) == c1,
+                _ => true,
+            };
+            if !consistent {
+                if e1 != a {
+                    t.notes.push(format!("README {} Set 1 prints {:?}, standard {:?} (README row is not the 8042 translation of its own Set 2 code; transcription kept)", name, a, e1));
+                }
+                if e2 != b {
+                    t.notes.push(format!("README {} Set 2 prints {:?}, standard {:?} (README row is not the 8042 translation of its own Set 1 code; transcription kept)", name, b, e2));
+                }
+                continue;
+            }
+            t.notes.push(format!("README row {} = ({:?}, {:?}) differs from the embedded transcription ({:?}, {:?}); the README of the tree under test is the reference, row taken over", name, a, b, e1, e2));
+            match cur {
+                Some(i) => {
+                    t.rows[i].1 = a;
+                    t.rows[i].2 = b;
+                }
+                None => t.rows.push((k, a, b)),
+            }
+        }
+        // rows the README no longer has
+        let before = t.rows.len();
+        t.rows.retain(|r| seen_names.iter().any(|n| *n == format!("{:?}", r.0)));
+        if t.rows.len() != before {
+            t.notes.push(format!("{} keys of the embedded transcription are no longer in the README; dropped from the reference", before - t.rows.len()));
+        }
+        t.index();
         t
     }
 }
@@ -238,20 +355,20 @@ pub fn parse_readme(path: &str) -> Result<Vec<(String, Option<Pc>, Option<Pc>)>,
 pub fn selfcheck() -> Result<Vec<String>, String> {
     let mut notes = Vec::new();
     // every key except PauseBreak appears exactly once
-    let mut seen = [false; NKEYS];
+    let mut seen = [false; NKEYS + 1];
     for (k, _, _) in SPEC.iter() {
         if seen[kidx(*k)] {
             return Err(format!("SPEC lists {:?} twice", k));
         }
         seen[kidx(*k)] = true;
     }
-    for (i, s) in seen.iter().enumerate() {
+    for (i, s) in seen.iter().enumerate().take(NKEYS) {
         if !*s && ALL_KEYS[i] != KeyCode::PauseBreak {
             return Err(format!("SPEC lacks {:?}", ALL_KEYS[i]));
         }
     }
     // no two keys share a sequence within a set
-    let t = Tables::build();
+    let t = Tables::embedded();
     let n1 = t.set1.iter().flatten().filter(|x| x.is_some()).count();
     let n2 = t.set2.iter().flatten().filter(|x| x.is_some()).count();
     if n1 != 121 || n2 != 123 {
@@ -267,24 +384,6 @@ pub fn selfcheck() -> Result<Vec<String>, String> {
                 ));
             }
         }
-    }
-    // README as it is on disk: differences are informational only
-    match parse_readme("/repo/README.md") {
-        Ok(rows) => {
-            for (name, a, b) in rows {
-                if let Some(k) = key_by_name(&name) {
-                    if let Some((_, s1, s2)) = SPEC.iter().find(|r| r.0 == k) {
-                        if *s1 != a {
-                            notes.push(format!("README {} Set 1 prints {:?}, standard {:?}", name, a, s1));
-                        }
-                        if *s2 != b {
-                            notes.push(format!("README {} Set 2 prints {:?}, standard {:?}", name, b, s2));
-                        }
-                    }
-                }
-            }
-        }
-        Err(e) => notes.push(format!("README not parsed: {}", e)),
     }
     Ok(notes)
 }
